@@ -23,15 +23,17 @@ RULE = ('file sets of 3-10 Fortran files (subroutine files with seeded rule viol
         'plans parallel runs per case. Non-trivial = serial run reported violations, every planned run finished and '
         'at least two distinct completion orders were observed among the multi-worker runs; distinct = hash of '
         'file contents and patterns.')
-CASES = {'quick': 48, 'thorough': 320}
-MIN_NONTRIVIAL = {'quick': 20, 'thorough': 200}
+CASES = {'quick': 32, 'thorough': 320}
+MIN_NONTRIVIAL = {'quick': 12, 'thorough': 160}
 ANCHORS = []
 REQUIRED_COUNTERS = {'trace_task_pairs': 50, 'parallel_runs_compared': 10}
 ASSUMPTIONS = ['the serial (max_workers=1) run is the reference result',
                'the hook trace (begin/end per queued task) is complete: events are appended with O_APPEND writes',
                'schedules are explored by injected start delays, not exhaustively']
-BUDGET_S = {'quick': 400, 'thorough': 3000}
-CASE_TIMEOUT_S = 900
+BUDGET_S = {'quick': 900, 'thorough': 3600}
+CASE_TIMEOUT_S = 2400
+WATCHDOG_S = {'quick': 3600, 'thorough': 9000}
+MAX_INCONCLUSIVE_FRAC = 0.2    # job timeouts on a loaded machine are environmental
 WORKER_COUNTS = (2, 4, 8)
 PLANS = {'quick': {2: ['zero', 'reverse', 'random'], 4: ['reverse', 'single', 'random'],
                    8: ['zero', 'single', 'random']},
@@ -372,7 +374,7 @@ def _run_case(idx, rng, tier, case, wd, src):
     for r in runs:
         Path(r['out']).mkdir(parents=True, exist_ok=True)
     try:
-        results = parlab.run_job(job, wd / 'job0', timeout=500)
+        results = parlab.run_job(job, wd / 'job0', timeout=1200)
     except (parlab.JobTimeout, parlab.JobCrashed) as e:
         res['inconclusive'] = f'lint job: {e}'
         return res
@@ -518,7 +520,7 @@ def _run_case(idx, rng, tier, case, wd, src):
         for r in spare:
             Path(r['out']).mkdir(parents=True, exist_ok=True)
         try:
-            for r in parlab.run_job(job2, wd / 'job1', timeout=300):
+            for r in parlab.run_job(job2, wd / 'job1', timeout=900):
                 byname[r['run']] = r
             for run in spare:
                 p = evaluate(run)
